@@ -606,6 +606,10 @@ impl<R: Rng, M: IsingManager> QmcIsingGraph<R, M> {
         self.state = Some(os);
         other.op_manager = Some(m);
         other.state = Some(s);
+        // Both samplers must sweep over the longer of the two operator strings.
+        let cutoff = max(self.cutoff, other.cutoff);
+        self.set_cutoff(cutoff);
+        other.set_cutoff(cutoff);
     }
 
     /// Average rvb success rate.
